@@ -60,6 +60,9 @@ func GenKeys(t *rapid.T, min, max int, exotic bool) []string {
 }
 
 // GenVia draws the write path and its splitting.
+// CopyPiece added to a create split size marks a piece that is written with io.Copy.
+const CopyPiece = 1 << 24
+
 func GenVia(t *rapid.T, length int) (string, []int) {
 	switch rapid.IntRange(0, 5).Draw(t, "via") {
 	case 0, 1, 2:
@@ -71,6 +74,16 @@ func GenVia(t *rapid.T, length int) (string, []int) {
 		if length > 20000 {
 			sizes = []int{0, 0, 2047, 2048, 2049, 32767, 32768, 32769, 50000}
 		}
-		return "create", rapid.SliceOfN(rapid.SampledFrom(sizes), 0, 6).Draw(t, "csplit")
+		split := rapid.SliceOfN(rapid.SampledFrom(sizes), 0, 6).Draw(t, "csplit")
+		// some pieces are handed over with io.Copy from a plain reader instead of a direct Write
+		// (which uses the file's ReadFrom if it ever grows one)
+		if mask := rapid.SampledFrom([]int{0, 0, 1, 2, 5, 63}).Draw(t, "copyMask"); mask != 0 {
+			for i := range split {
+				if mask>>uint(i)&1 == 1 {
+					split[i] += CopyPiece
+				}
+			}
+		}
+		return "create", split
 	}
 }
